@@ -12,6 +12,21 @@ import time
 from vmon import evlog
 
 
+_rec = None           # set by core.spec_main: the spec's recorder (chaos counters)
+
+
+def chaos_seed_for(mod, func, params):
+    """every third scenario (decided by its parameters, so that a replay makes
+    the same choice) runs with schedule perturbation in the host's pool threads"""
+    if os.environ.get('VERIF_CHAOS') == '0' or params.get('no_chaos'):
+        return None
+    if os.environ.get('VERIF_CHAOS') == '1':
+        return 1
+    import zlib
+    h = zlib.crc32(json.dumps([mod, func, params], sort_keys=True, default=repr).encode())
+    return (h >> 4) + 1 if h % 3 == 0 else None
+
+
 def run_scenario(mod, func, params, timeout=60, tag='sc'):
     wd = os.environ.get('VERIF_WORKDIR') or '/tmp'
     base = os.path.join(wd, '%s-%d-%d' % (tag, os.getpid(), int(time.monotonic() * 1000) % 10**9))
@@ -21,6 +36,10 @@ def run_scenario(mod, func, params, timeout=60, tag='sc'):
     env = dict(os.environ)
     env['VERIF_EVLOG'] = lfile
     env['VERIF_SCENARIO_TIMEOUT'] = str(timeout)
+    env.pop('VERIF_CHAOS_SEED', None)
+    cseed = chaos_seed_for(mod, func, params)
+    if cseed is not None:
+        env['VERIF_CHAOS_SEED'] = str(cseed)
     t0 = time.monotonic()
     with open(efile, 'wb') as err:
         p = subprocess.Popen([sys.executable, '-X', 'faulthandler', '-m', 'vmon.realchild',
@@ -54,13 +73,22 @@ def run_scenario(mod, func, params, timeout=60, tag='sc'):
         else:
             status = 'died'
     events = evlog.read(lfile)
+    ch = (obs or {}).get('_chaos')
+    if _rec is not None:
+        _rec.count('real:scenarios_plain' if cseed is None else 'real:scenarios_perturbed')
+        if ch:
+            _rec.count('chaos:naps', ch['naps'])
+            _rec.count('chaos:long_naps', ch['long_naps'])
+            _rec.count('chaos:lines_seen', ch['lines'])
+            _rec.maxi('max:chaos_nap_sites_in_one_scenario', ch['sites'])
+            _rec.maxi('max:chaos_thread_function_pairs', ch['thread_function_pairs'])
     for x in (pfile, ofile, lfile, efile):
         try:
             os.unlink(x)
         except OSError:
             pass
     return {'status': status, 'rc': rc, 'obs': obs or {}, 'events': events,
-            'stderr': stderr, 'wall': wall}
+            'stderr': stderr, 'wall': wall, 'chaos': cseed}
 
 
 def pid_exists(pid):
